@@ -326,6 +326,18 @@ def spacelessFix : Nat → Bytes → Bytes
 
 def spaceless (s : Bytes) : Bytes := spacelessFix (s.length + 1) s
 
+/-! ### literal text (`nodeHTML.Execute` with the option handling of `newTemplate`) -/
+
+/-- the bytes a text node writes: `trimBlocks`/`lstripBlocks` are the options of the
+    template that owns the node (they apply only when that template is the one executing),
+    `after`/`before`: the node directly follows / precedes a block tag delimiter,
+    `trimL`/`trimR`: the neighbouring delimiter carries a `-` -/
+def htmlOut (trimBlocks lstripBlocks : Bool) (val : Bytes) (trimL trimR after before : Bool) : Bytes :=
+  let v1 := if trimBlocks && after && val.head? == some 0x0a then val.tail else val
+  let v2 := if lstripBlocks && before then Bytes.trimRight b!"\t " v1 else v1
+  let v3 := if trimL then Bytes.trimLeft b!" \n\r\t" v2 else v2
+  if trimR then Bytes.trimRight b!" \n\r\t" v3 else v3
+
 /-! ### evaluation and execution -/
 
 def identOk (k : Bytes) : Bool :=
@@ -642,13 +654,8 @@ def execNode : Nat → Node → XM Unit
       let fr ← cur
       let st ← get
       let opts := st.cs.tpls[fr.called]!
-      let v := if owner == fr.called then
-          let v1 := if opts.trimBlocks && after && val.head? == some 0x0a then val.tail else val
-          if opts.lstripBlocks && before then Bytes.trimRight b!"\t " v1 else v1
-        else val
-      let v := if trimL then Bytes.trimLeft b!" \n\r\t" v else v
-      let v := if trimR then Bytes.trimRight b!" \n\r\t" v else v
-      write v
+      write (htmlOut (owner == fr.called && opts.trimBlocks) (owner == fr.called && opts.lstripBlocks)
+        val trimL trimR after before)
     | .var e _ => do
       let v ← eval fuel e
       let fr ← cur
